@@ -479,7 +479,7 @@ class StorageRunner:
             elif o == 'hist':
                 h = st.history(p64(int(tk[1])), 1000)
                 r = '[' + ','.join(str(u64(d['tid'])) for d in h) + ']'
-            elif o in ('undo', 'undotxn'):
+            elif o in ('undo', 'undotxn', 'undomulti'):
                 # undo <tid> <oid> <ctid> <undone> <pre> <cur> | undotxn <tid> <oid> <undone>:
                 # a whole undo transaction of the transaction with tid `undone`
                 import base64
@@ -489,7 +489,8 @@ class StorageRunner:
                 del K.CALLS[:]
                 st.tpc_begin(txn, p64(int(tk[1])))
                 try:
-                    st.undo(base64.encodebytes(p64(int(tk[4] if o == 'undo' else tk[3]))).rstrip(), txn)
+                    for u in ([tk[4]] if o == 'undo' else tk[3:] if o == 'undomulti' else [tk[3]]):
+                        st.undo(base64.encodebytes(p64(int(u))).rstrip(), txn)
                     st.tpc_vote(txn)
                     st.tpc_finish(txn)
                     calls = take_calls()
